@@ -59,6 +59,45 @@ def arms_rule(F, rep):
     same = ok and target is not None and len(rtargets) == 1 and target.rsplit(".", 1)[0] == rtargets[0].rsplit(".", 1)[0] and target.endswith(".validity") and rtargets[0].endswith(".pre")
     rep.ob("presence.pre-arm", bool(same), PE + "#FramePre", "validity", "the Pre arm must push exactly one `true` into the validity of the character whose pre row it reads (validity on %s, row on %s)" % (target, rtargets),
            sample={"validity": target, "row": rtargets})
+    # .. on every path on which the row is read: the conditions enclosing the push are those enclosing the read, plus only the
+    # "a bitmap exists" test on the validity itself (a push under `if is_follower` leaves the leader's bitmap short)
+    if same:
+        import safety
+        parents = safety.parents(pre["body"])
+
+        def conds(x):
+            out = []
+            y = x
+            while id(y) in parents:
+                p = parents[id(y)]
+                if p.get("k") in ("If", "Match") and not (p.get("k") == "If" and (p.get("cond") is y)) and not (p.get("k") == "Match" and p.get("scrut") is y):
+                    out.append(p)
+                y = p
+            return out
+        extra = [c for c in conds(pushes[0]) if not any(c is d for d in conds(readers[0]))]
+        own = []
+        for c in extra:
+            scr = strip(c["cond"]["init"]) if c.get("k") == "If" and strip(c["cond"]).get("k") == "LetCond" else (strip(c["scrut"]) if c.get("k") == "Match" else None)
+            if scr is not None and (tir.place(scr) or "") == target:
+                own.append(c)
+        rep.ob("presence.pre-arm.unconditional", len(extra) == len(own), PE + "#FramePre", "validity.condition",
+               "the validity push in the Pre arm is under a condition the row read is not under (%s): some present rows would not be marked" % "; ".join(tir.pretty(c.get("cond") or c.get("scrut"))[:60] for c in extra if not any(c is o for o in own)),
+               tir.sp(pushes[0]))
+    # the follower flag is the header byte tested for non-zero (a C-style bool: any non-zero value selects the follower)
+    for nm, arm in (("FramePre", pre), ("FramePost", post)):
+        info = events.analyse_arm(nm, arm)
+        if len(info["header"]) == 3:
+            fname = info["header"][2]["name"]
+            ok_f = False
+            for x in tir.walk(arm["body"]):
+                if x.get("k") == "Let" and x["pat"].get("k") == "Bind" and x["pat"].get("name") == fname and x.get("init") is not None:
+                    i = strip(x["init"])
+                    if i.get("k") == "Binary" and L.strip_try(i["l"]).get("k") == "MethodCall" and L.strip_try(i["l"])["method"] == "read_u8":
+                        ok_f = (i["op"] == "Ne" and tir.lit_int(i["r"]) == 0) or (i["op"] == "Gt" and tir.lit_int(i["r"]) == 0) or (i["op"] == "Ge" and tir.lit_int(i["r"]) == 1)
+                    elif i.get("k") == "Unary" and i.get("op") == "Not":
+                        j = strip(i["e"])
+                        ok_f = j.get("k") == "Binary" and j["op"] == "Eq" and tir.lit_int(j["r"]) == 0 and L.strip_try(j["l"]).get("k") == "MethodCall"
+            rep.ob("ports.follower-byte", ok_f, PE + "#" + nm, "follower", "the follower flag of the %s arm must be `header byte != 0` (any non-zero byte selects the follower)" % nm)
     vp = [x for x in tir.walk(post["body"]) if x.get("k") == "MethodCall" and (declared(x) or "") == "arrow2::bitmap::MutableBitmap::push"]
     rep.ob("presence.post-arm", not vp, PE + "#FramePost", "validity", "the Post arm must not push validity bits (one per character per frame, pushed by the Pre arm)")
     # the character is selected by the event's own (port, follower flag)
@@ -388,9 +427,9 @@ def items_rule(F, G, rep):
         rep.ob("items.slice", len(leaves) == 1 and leaves[0].get("exact") and leaves[0].get("offsets") == "self.item_offset", "frame::%s::Frame::transpose_one" % fam, "items", "items of a row must be the slice delimited by item_offset.start_end(i)")
 
 
-def run(F, rep, tier):
-    G = reach.Graph(F)
-    M = model.Model(F, rep, want=("with_capacity", "push_null", "read_push"))
+def structure_rules(F, G, rep, M):
+    """the reader's frame structure as a whole: one row per frame in every column, each value in the row and character of its
+    own event. Every property whose statement depends on rows being where their events put them runs this set."""
     balance_rule(F, rep, M)
     arms_rule(F, rep)
     data_mut_rule(F, rep)
@@ -398,6 +437,12 @@ def run(F, rep, tier):
     padding_rule(F, G, rep)
     bracketing_rule(F, G, rep, M)
     items_rule(F, G, rep)
+
+
+def run(F, rep, tier):
+    G = reach.Graph(F)
+    M = model.Model(F, rep, want=("with_capacity", "push_null", "read_push"))
+    structure_rules(F, G, rep, M)
     # positive control: the bracketing walker must flag an opener that is not preceded by a closer below 3.0
     b, m, arms = events.find_dispatch(F)
     op, cl = bracket.openers_closers(F, G)
